@@ -273,7 +273,12 @@ def coverage_ranges(ctx, rep, clause):
     def bounds(t):
         lo, up = _as_slice(c, t.targets[0].slice)
         return norm_stmt(c.resolve(lo)) if lo is not None else '', norm_stmt(c.resolve(up)) if up is not None else ''
-    ok = len(targets) == 2 and bounds(targets[0]) == bounds(targets[1])
+    if len(targets) != 2:
+        # the two writes into the coverage array were not found in coverage() itself (moved into writer functions
+        # chosen at run time, ...): the rule does not read this form -- not a witness of two different ranges
+        raise AnalysisError(f'coverage: expected the two slice writes into the coverage array (accumulate / binary), found '
+                            f'{len(targets)}')
+    ok = bounds(targets[0]) == bounds(targets[1])
     ob(rep, 'SIB-range', f.fq, 'accumulate and binary branch mark the same range', ok,
        ' : '.join(bounds(targets[0])) if targets else '', 'the two branches write different ranges', f.loc(), clause)
     for i, t in enumerate(targets):
